@@ -1,20 +1,22 @@
 #!/bin/bash
-# usage: tools/trypatch.sh <patch.diff> [props...]   — apply a patch to /repo, run the quick checks, undo it.
-# Prints one line per property: id exit-code first-violation.  Never leaves /repo modified.
+# usage: tools/trypatch.sh <patch.diff> [props...]
+# Applies a patch to a scratch copy of /repo (never to /repo itself), runs the quick checks on the copy, removes it.
+# Prints one line per property: id exit-code number-of-violations first-violation.
 set -u
 patch="$(readlink -f "$1")"; shift
 props="${@:-C01 C02 C03 C04 C05 C06 C07 C08 C09 C10 C11 C12 C13 C14 C15 C16 C17 C18 C19 C20}"
 export GOFLAGS=-mod=mod GOPROXY=off GOSUMDB=off GOTOOLCHAIN=local
-if ! git -C /repo diff --quiet; then echo "/repo has uncommitted changes" >&2; exit 2; fi
-git -C /repo apply "$patch" || { echo "patch does not apply" >&2; exit 2; }
-trap 'git -C /repo checkout -- . >/dev/null 2>&1' EXIT
-( cd /repo/v4 && go build ./... ) || { echo "does not compile"; exit 3; }
+scratch=$(mktemp -d /tmp/trypatch.XXXXXX)
+trap 'rm -rf "$scratch"' EXIT
+rsync -a --exclude .git /repo/ "$scratch"/
+( cd "$scratch" && git apply "$patch" ) || { echo "patch does not apply" >&2; exit 2; }
+( cd "$scratch"/v4 && go build ./... ) || { echo "does not compile"; exit 3; }
 run() {
   p=$1
-  out=$(/verif/bin/vcgen -prop $p -no-witness 2>&1); rc=$?
+  out=$(/verif/bin/vcgen -repo "$2" -prop $p -no-witness 2>&1); rc=$?
   v=$(echo "$out" | grep -m1 '^VIOLATION' | sed 's/.*obligation=//')
   n=$(echo "$out" | grep -c '^VIOLATION')
   echo "$p rc=$rc violations=$n first=[$v]"
 }
 export -f run
-echo $props | tr ' ' '\n' | xargs -P 8 -I{} bash -c 'run {}' | sort
+echo $props | tr ' ' '\n' | xargs -P ${JOBS:-6} -I{} bash -c "run {} $scratch" | sort
